@@ -96,7 +96,8 @@ def run (op : String) (a : Json) : Option (Except String Json) :=
         | j => (dContent j).map some
       pure <| ok (match dtdClassFields t c with
         | .plain fs => jObj [("plain", jList (fun (s : Site) => Json.arr #[jStr s.name, jNat s.min, jNat s.max]) fs)]
-        | .mixedWildcard cs => jObj [("mixed", jList jStr cs)])
+        | .mixedWildcard cs => jObj [("mixed", jList jStr cs)]
+        | .anyTypeWildcard => jObj [("any_extension", Json.bool true)])
   | "gen.dtd_nsmap" => some do
       let dOpt (j : Json) : Except String (Option Str) := match j with
         | .null => pure none
